@@ -67,6 +67,7 @@ def op_strategy(client, idx):
         st.tuples(st.just('add'), st.just('n'), st.just(('i', 100))),
         st.tuples(st.just('len')),
         st.tuples(st.just('list')),
+        st.tuples(st.just('close')),  # closes the caller's connection; the next call reopens it transparently
     )
 
 
@@ -157,6 +158,8 @@ def do_op(cache, op):
             return ('ok', cache.incr(op[1], op[2], retry=True))
         if name == 'decr':
             return ('ok', cache.decr(op[1], op[2], retry=True))
+        if name == 'close':
+            return ('ok', cache.close())
         if name == 'len':
             return ('ok', len(cache))
         if name == 'list':
@@ -177,6 +180,8 @@ def model_apply(state, call):
     k = op[1] if len(op) > 1 else None
     if name == 'setbad':
         return state, res[0] == 'exc'  # rejected: no effect
+    if name == 'close':
+        return state, res == ('ok', None)
     if name == 'set':
         d[k] = (op[2], False)
         exp = ('ok', True)
